@@ -11,7 +11,7 @@ use serde_json::{json, Value};
 pub static ENGINE: Engine = Engine {
     prop: "C10",
     level: "exploration",
-    rule: "the real rsbdd binary on EVERY formula with <= 3 (4) AST nodes over the CLI alphabet (4 leaves, not, & | => ^, if, 4 quantifier heads, lfp/gfp, 5 counting comparisons; names bound, free, both) with -t under filter Any/True/False; on every formula <= 2 (3) nodes additionally: all 15 accepted filter spellings and 6 rejected near-misses, the three input channels (--evaluate, file, stdin; byte-identical stdout), every permutation / ordered subset / one-name superset (unused name before, between, after) of its names as ordering file, -v, -t -v together under each filter, -t -b 1, -t -b 3 (byte-identical to -t), and on a 14-formula core the full cross product spelling x channel x ordering x output; ten formulas with five or six free variables under three filters, -v and four orderings; and the option lattice {-t,-v,-t -v} x -f x -c x -m x -b x ordering x channel on a ten-formula core against the pipeline evaluate -> -c -> -m computed through the library API. Oracle: header = reference free variables in variable order; rows pairwise disjoint cubes; result column = reference value on every assignment covered; union = all / satisfying / falsifying assignments; -v lines denote exactly the satisfying assignments. distinct = distinct (argv, stdout) pairs",
+    rule: "the real rsbdd binary on EVERY formula with <= 3 (4) AST nodes over the CLI alphabet (4 leaves, not, & | => ^, if, 4 quantifier heads, lfp/gfp, 5 counting comparisons; names bound, free, both) with -t under filter Any/True/False; on every formula <= 2 (3) nodes additionally: all 15 accepted filter spellings and 6 rejected near-misses, the three input channels (--evaluate, file, stdin; byte-identical stdout), every permutation / ordered subset / one-name superset (unused name before, between, after) of its names as ordering file, -v, -t -v together under each filter, -t -b 1, -t -b 3 (byte-identical to -t), and on a 14-formula core the full cross product spelling x channel x ordering x output; ten formulas with five or six free variables and two with names of 38 and 86 characters under three filters, -v and four orderings; and the option lattice {-t,-v,-t -v} x -f x -c x -m x -b x ordering x channel on a ten-formula core against the pipeline evaluate -> -c -> -m computed through the library API; tables of and/or chains over 7..100 variables judged without a truth table (each row's cube determines the value, rows disjoint, covered assignments add up). Oracle: header = reference free variables in variable order; rows pairwise disjoint cubes; result column = reference value on every assignment covered; union = all / satisfying / falsifying assignments; -v lines denote exactly the satisfying assignments. distinct = distinct (argv, stdout) pairs",
     assumptions: &["only the |-separated cells of stdout are read (layout is free)", "reference semantics and free-variable analysis of harness/src/refl.rs; -b 0 and -g are outside the property"],
     max_shards: 64,
     run,
@@ -210,7 +210,7 @@ pub const CORE: [&str; 14] = [
 ];
 
 /// formulas with five and six free variables (tables of up to 64 rows)
-pub const BIG: [&str; 10] = [
+pub const BIG: [&str; 12] = [
     "[a, b, c, d, e] = 2",
     "(a | b) & (c | d) & (e | f)",
     "a ^ b ^ c ^ d ^ e ^ f",
@@ -221,6 +221,8 @@ pub const BIG: [&str; 10] = [
     "(a => b) & (b => c) & (c => d) & (d => e) & (e => f)",
     "lfp X # a | (X & b) | (exists c # X & d & c)",
     "-(a & b & c & d & e & f)",
+    "request_from_client_number_01_is_valid & -request_from_client_number_02_is_valid | fallback_enabled",
+    "valve_of_the_primary_cooling_circuit_is_open_and_the_secondary_pump_has_been_started_a ^ valve_of_the_primary_cooling_circuit_is_open_and_the_secondary_pump_has_been_started_b",
 ];
 
 pub fn big_orderings(names: &[String]) -> Vec<String> {
@@ -376,6 +378,98 @@ fn pipeline_lattice(ctx: &mut Ctx, idx: &mut u64) {
     }
 }
 
+
+/// Tables with up to 100 columns: and/or chains. Without a truth table the oracle is: every
+/// row's cube determines the formula's value (sound three-valued evaluation) and that value
+/// is the result column; rows are pairwise disjoint; the numbers of assignments covered add
+/// up to 2^n (Any) or to the number of satisfying / falsifying assignments.
+fn wide_tables(ctx: &mut Ctx, idx: &mut u64) {
+    use crate::cli::{parse_table, Cell};
+    use rustc_hash::FxHashMap;
+    for n in [7usize, 33, 64, 65, 100] {
+        for (op, is_or) in [("|", true), ("&", false)] {
+            for (fi, filter) in [Filter::Any, Filter::True, Filter::False].into_iter().enumerate() {
+                for rev in [false, true] {
+                    *idx += 1;
+                    if !ctx.mine(*idx) {
+                        continue;
+                    }
+                    let names: Vec<String> = (1..=n).map(|i| format!("in_{i:03}")).collect();
+                    let text = names.join(&format!(" {op} "));
+                    let Ok(ast) = refl::parse(&text) else { continue };
+                    let mut opts = vec!["-t".to_string()];
+                    if fi > 0 {
+                        opts.extend(["-f".to_string(), ["", "t", "F"][fi].to_string()]);
+                    }
+                    let mut inv = base(&text, opts);
+                    inv.channel = Channel::File;
+                    let order: Vec<String> = if rev { names.iter().rev().cloned().collect() } else { names.clone() };
+                    if rev {
+                        inv.ordering = Some(order.join(" ").into_bytes());
+                    }
+                    let case = json!({"part": "wide", "n": n, "or": is_or, "filter": fi, "rev": rev});
+                    ctx.begin_case(|| case.clone());
+                    ctx.count("evaluations", 1);
+                    ctx.count("wide_tables", 1);
+                    let key = format!("{TAG} rsbdd -t on a chain of {n} variables joined by {op} (filter {:?}{})", filter, if rev { ", reversed ordering" } else { "" });
+                    let r = inv.run();
+                    ctx.distinct(&(n, is_or, fi, rev, &r.run.stdout));
+                    if !r.run.ok() {
+                        ctx.violation(key, format!("rsbdd failed: {} {}", r.run.describe(), r.run.err_tail()), case);
+                        continue;
+                    }
+                    let t = match parse_table(&r.run.out()) {
+                        Err(e) => {
+                            ctx.violation(key, format!("unreadable table: {e}"), case);
+                            continue;
+                        }
+                        Ok(t) => t,
+                    };
+                    let mut c = vec![];
+                    if t.header != order {
+                        c.push(format!("header is not the {n} free variables in variable order (got {} columns, first {:?})", t.header.len(), t.header.first()));
+                    } else {
+                        let mut covered: u128 = 0;
+                        for (cells, res) in &t.rows {
+                            let env: FxHashMap<String, bool> = cells.iter().zip(t.header.iter()).filter(|(c, _)| **c != Cell::Any).map(|(c, h)| (h.clone(), *c == Cell::T)).collect();
+                            match crate::puzzles::eval3(&ast, &env) {
+                                Some(v) if v == *res => {}
+                                other => {
+                                    c.push(format!("a row's cube gives the formula the value {:?} but the result column says {res}", other));
+                                    break;
+                                }
+                            }
+                            covered += 1u128 << cells.iter().filter(|c| **c == Cell::Any).count();
+                        }
+                        for (i, (a, _)) in t.rows.iter().enumerate() {
+                            for (b, _) in &t.rows[..i] {
+                                if a.iter().zip(b.iter()).all(|(x, y)| *x == Cell::Any || *y == Cell::Any || x == y) {
+                                    c.push("two rows overlap".to_string());
+                                }
+                            }
+                        }
+                        // satisfying assignments: or-chain 2^n - 1, and-chain 1
+                        let total: u128 = 1u128 << n;
+                        let sat: u128 = if is_or { total - 1 } else { 1 };
+                        let want = match filter {
+                            Filter::Any => total,
+                            Filter::True => sat,
+                            Filter::False => total - sat,
+                        };
+                        if covered != want {
+                            c.push(format!("the rows cover {covered} assignments, expected {want}"));
+                        }
+                    }
+                    if !c.is_empty() {
+                        c.truncate(3);
+                        ctx.violation(key, c.join("; "), case);
+                    }
+                }
+            }
+        }
+    }
+}
+
 fn run(ctx: &mut Ctx) {
     let th = ctx.thorough();
     let set = cli_formula_set(if th { 4 } else { 3 });
@@ -397,6 +491,7 @@ fn run(ctx: &mut Ctx) {
         family_c(ctx, f, &mut idx);
     }
     pipeline_lattice(ctx, &mut idx);
+    wide_tables(ctx, &mut idx);
     for f in BIG {
         idx += 1;
         if ctx.mine(idx) {
@@ -408,6 +503,18 @@ fn run(ctx: &mut Ctx) {
 }
 
 fn replay(ctx: &mut Ctx, c: &Value) {
+    if c["part"].as_str() == Some("wide") {
+        let mut c2 = Ctx::new("C10", ctx.tier, ctx.seed, 0, 1);
+        let mut idx = 0u64;
+        wide_tables(&mut c2, &mut idx);
+        for v in c2.violations {
+            if v.replay == *c {
+                ctx.violation(v.key, v.what, v.replay);
+            }
+        }
+        crate::cli::cleanup_scratch();
+        return;
+    }
     if c["part"].as_str() == Some("pipeline") {
         let mut c2 = Ctx::new("C10", ctx.tier, ctx.seed, 0, 1);
         let mut idx = 0u64;
